@@ -44,7 +44,7 @@ def n_of(c):
 
 INVARIANTS = ["TypeOK", "Partition", "ProgressIsTruth"]
 PROPERTIES = ["DirectDataSurvives", "OnlyOwnResult", "ResowKeepsResults", "FailedGrowWritesNothing", "ReapEqualsDirect", "PartialReapWorks",
-              "RefusedUntouched", "DeleteOnlyAfterDelivery", "FailedReapKeepsCrop"]
+              "RefusedUntouched", "DeleteOnlyAfterDelivery", "FailedReapKeepsCrop", "GrowRefreshes", "FullGrowLeavesNothingStale"]
 
 
 def run_model(name, configs, *, acts, max_steps, record, max_perm=3, emit=False, simulate=None, depth=None, seed=None,
@@ -453,12 +453,18 @@ def read_batches(w):
 
 # -- value projection --------------------------------------------------------------------
 
-def tok_id(w, v):
+def tok_id(w, v, lenient=False):
     """token (a number) -> setting id, or -1; the constant's version must be the one the model says was sown"""
     v = int(v)
-    if v < 0 or v // 1000000 != w.expect_k:
+    if v < 0:
         return -1
-    return w.id_of_tok.get(v % 1000000, -1)
+    i = w.id_of_tok.get(v % 1000000, -1)
+    k = v // 1000000
+    if getattr(w, "ever_stale", False) and lenient:
+        return i if k in (0, 1) else -1      # (accumulated data after results of both versions of the constants were delivered)
+    kof = getattr(w, "kof", None)
+    want_k = kof[i - 1] if (kof and i > 0) else w.expect_k     # the model's version for this very setting
+    return i if k == want_k else -1
 
 
 def leaf_id(w, x):
@@ -619,7 +625,7 @@ def check_store_memory(w, ids):
                 x = float(ds["x"].sel(dict(zip(w.names, loc))).values)
             except KeyError:
                 x = float("nan")
-            got = 0 if math.isnan(x) else tok_id(w, x)
+            got = 0 if math.isnan(x) else tok_id(w, x, lenient=True)
             if got != (i if i in ids else 0):
                 return "the in-memory Harvester holds the value of setting %s at setting %d, expected %s" % (got, i, i if i in ids else 0)
         return None
@@ -652,7 +658,7 @@ def check_store(w, store_ids, extra=0):
                 x = float(ds["x"].sel(dict(zip(w.names, loc))).values)
             except KeyError:
                 x = float("nan")
-            got = 0 if math.isnan(x) else tok_id(w, x)
+            got = 0 if math.isnan(x) else tok_id(w, x, lenient=True)
             if i == 1 and w.cfg["cause"] == "merge" and x == -5.0 and not (w.overwrite and 1 in ids):
                 continue      # the conflicting value that was on disk before (environment of cause "merge")
             if got == i and i not in ids and w.cfg["cause"] == "save":
@@ -948,6 +954,9 @@ def replay_case(case, variant):
             for k, ev in enumerate(case["hist"]):
                 post = ev["post"]
                 w.expect_k = ev.get("k", 0)
+                w.stale = bool(ev.get("stale", False))
+                w.ever_stale = getattr(w, "ever_stale", False) or w.stale
+                w.kof = ev.get("kof") or None
                 outcome, ret, exc = do_step(w, ev)
                 want = post["outcome"]
                 if ev["a"] == "reap":
@@ -969,7 +978,9 @@ def replay_case(case, variant):
                             if last is not ret:
                                 return ("step %d: the reaped result is not recorded as the farmer's last result" % k,
                                         "last_result", k, notes)
-                            if want == "complete" and not (w.cause == "merge"):
+                            if want == "complete" and not (w.cause == "merge") and not w.stale and w.kver == w.expect_k:
+                                # (constants changed in the session but not sown yet, or results of both versions around:
+                                #  "the same inputs" of the direct run are not defined - only the model's value map is checked)
                                 prob = check_direct(w, ret)
                                 if prob:
                                     return ("step %d reap%r: %s" % (k, tuple(ev["args"]), prob), "direct", k, notes)
